@@ -13,12 +13,6 @@ def unhex (s : String) : Bytes :=
 def hexDigit (n : Nat) : Char := if n < 10 then Char.ofNat (48 + n) else Char.ofNat (87 + n)
 def tohex (b : Bytes) : String := String.ofList (b.flatMap fun x => [hexDigit (x.toNat / 16), hexDigit (x.toNat % 16)])
 
-def langOf : String → Lang
-  | "C" => .c | "Cxx" => .cxx | "GenericHeader" => .genericHeader | "CHeader" => .cHeader
-  | "CxxHeader" => .cxxHeader | "ObjectiveC" => .objc | "ObjectiveCxx" => .objcxx
-  | "ObjectiveCxxHeader" => .objcxxHeader | "Cuda" => .cuda | "CudaFE" => .cudaFE | "Ptx" => .ptx
-  | "Cubin" => .cubin | "Rust" => .rust | _ => .hip
-
 def hexList (s : String) : List Bytes := if s == "-" then [] else (s.splitOn ",").map fun x => if x == "e" then [] else unhex x
 
 -- line: digesthex plusplus lang args extra envk envv pphex   (lists comma separated, "-" = empty list, "e" = empty element)
@@ -28,9 +22,22 @@ partial def loop (h : IO.FS.Stream) : IO Unit := do
   match line.trimAscii.toString.splitOn " " with
   | [d, pp, l, args, extra, ek, ev, text] =>
     let env := (hexList ek).zip (hexList ev)
-    let r : CReq := { digest := unhex d, plusplus := pp == "1", lang := langOf l, args := hexList args,
-                      extra := hexList extra, env := env, pp := if text == "-" then [] else unhex text }
-    IO.println (tohex (encHash r))
+    match langOfName l with
+    | none => IO.println "bad-op"
+    | some lang =>
+      let r : CReq := { digest := unhex d, plusplus := pp == "1", lang := lang, args := hexList args,
+                        extra := hexList extra, env := env, pp := if text == "-" then [] else unhex text }
+      IO.println (tohex (encHash r))
+  | ["pre", ign, d, pp, l, args, extra, ek, ev, path, idig, hasTime] =>
+    match langOfName l with
+    | none => IO.println "bad-op"
+    | some lang =>
+      let env := (hexList ek).zip (hexList ev)
+      let r : PReq := { digest := unhex d, plusplus := pp == "1", lang := lang, args := hexList args, extra := hexList extra,
+                        env := env, path := unhex path, inputDigest := unhex idig, hasTime := hasTime == "1" }
+      match encPre (ign == "1") r with
+      | none => IO.println "none"
+      | some b => IO.println (tohex b)
   | _ => IO.println "bad-op"
   loop h
 
